@@ -123,6 +123,9 @@ struct Consumer {
     nth_at: Option<(usize, usize)>,
     /// after this many items, finish with `count()` and compare with the rows that remain
     count_after: Option<usize>,
+    /// after this many items, obtain all remaining items through `for_each` (i.e. `fold`) instead
+    /// of `next()`; they are then judged exactly as if `next()` had delivered them
+    fold_after: Option<usize>,
 }
 
 #[derive(Clone, Debug)]
@@ -179,6 +182,7 @@ struct Outcome {
     longest_line: usize,
     used_nth: bool,
     used_count: bool,
+    used_fold: bool,
     /// sequence of (kind, bytes consumed at that point): the observable history
     history_hash: u64,
 }
@@ -217,7 +221,7 @@ fn run_case(case: &Case, scratch: Option<&Path>) -> Outcome {
     let mut out = Outcome {
         violation: None, trace: vec![], stats: ReadStats::default(), items: 0, delivered_ok: 0, delivered_err: 0,
         hard_fired_at_call: None, rows_after_hard_error: 0, of_which_not_in_file: 0, max_error_line: 0, asked_after_none: 0,
-        line_longer_than_buffer: data.split(|b| *b == b'\n').any(|l| l.len() > 8192), longest_line: data.split(|b| *b == b'\n').map(|l| l.len() + 1).max().unwrap_or(0), used_nth: false, used_count: false, history_hash: 0,
+        line_longer_than_buffer: data.split(|b| *b == b'\n').any(|l| l.len() > 8192), longest_line: data.split(|b| *b == b'\n').map(|l| l.len() + 1).max().unwrap_or(0), used_nth: false, used_count: false, used_fold: false, history_hash: 0,
     };
     let max_calls = expected.len() + 8;
     let mut hh = hash_bytes(&data);
@@ -239,16 +243,42 @@ fn run_case(case: &Case, scratch: Option<&Path>) -> Outcome {
     let plain = case.config == "strict" && !case.file.has_corruption();
     let nth_at = if plain { case.consumer.nth_at } else { None };
     let count_after = if plain { case.consumer.count_after } else { None };
+    let fold_after = if plain { case.consumer.fold_after } else { None };
+    let mut folded: Option<std::collections::VecDeque<Got>> = None;
     let mut size_hint_bad: Option<(usize, Option<usize>)> = None;
     let mut counted: Option<Result<usize, ()>> = None;
     let mut next_op = |call: usize, skip: usize, finish_with_count: bool, remaining: usize| -> Got {
         shared.borrow_mut().cur_call = call;
+        if let Some(q) = folded.as_mut() {
+            // already drained through for_each: replay the collected items
+            for _ in 0..skip {
+                q.pop_front();
+            }
+            return q.pop_front().unwrap_or(Got::None);
+        }
+        if fold_after == Some(call) && !finish_with_count {
+            let mut q = std::collections::VecDeque::new();
+            let r = std::panic::catch_unwind(std::panic::AssertUnwindSafe(|| match (via_sim.take(), via_file.take()) {
+                (Some(p), _) => p.for_each(|x| q.push_back(classify(Some(x)))),
+                (_, Some(p)) => p.for_each(|x| q.push_back(classify(Some(x)))),
+                _ => unreachable!(),
+            }));
+            if r.is_err() {
+                q.push_back(Got::Panic);
+            }
+            for _ in 0..skip {
+                q.pop_front();
+            }
+            let first = q.pop_front().unwrap_or(Got::None);
+            folded = Some(q);
+            return first;
+        }
         let r = std::panic::catch_unwind(std::panic::AssertUnwindSafe(|| {
             if finish_with_count {
                 let n = match (via_sim.take(), via_file.take()) {
                     (Some(p), _) => p.count(),
                     (_, Some(p)) => p.count(),
-                    _ => unreachable!(),
+                    _ => return None, // already consumed by for_each
                 };
                 counted = Some(Ok(n));
                 return None;
@@ -264,7 +294,7 @@ fn run_case(case: &Case, scratch: Option<&Path>) -> Outcome {
                 (_, Some(p)) => {
                     if skip > 0 { p.nth(skip) } else { p.next() }
                 }
-                _ => unreachable!(),
+                _ => None,
             }
         }));
         match r {
@@ -434,6 +464,7 @@ fn run_case(case: &Case, scratch: Option<&Path>) -> Outcome {
         }
     }
     out.used_nth = nth_at.is_some();
+    out.used_fold = folded.is_some();
     drop(via_sim);
     drop(via_file);
     if let Some(p) = tmp_path {
@@ -533,6 +564,7 @@ fn plan_case(seed: u64, idx: u64, tier: &str) -> Case {
             stop_at_first_err: rng.chance(1, 10),
             nth_at: if rng.chance(1, 8) { Some((rng.usize_below(8), 1 + rng.usize_below(3))) } else { None },
             count_after: if rng.chance(1, 8) { Some(rng.usize_below(12)) } else { None },
+            fold_after: if rng.chance(1, 8) { Some(rng.usize_below(6)) } else { None },
         },
         via_real_file,
     }
@@ -546,7 +578,7 @@ fn case_to_json(c: &Case, trace: &[Dec]) -> Value {
         "torn_at": c.torn_at,
         "reader_trace": trace_to_json(trace),
         "consumer": {"extra_after_none": c.consumer.extra_after_none, "stop_at_first_err": c.consumer.stop_at_first_err,
-                     "nth_at": c.consumer.nth_at.map(|(a, j)| json!([a, j])), "count_after": c.consumer.count_after},
+                     "nth_at": c.consumer.nth_at.map(|(a, j)| json!([a, j])), "count_after": c.consumer.count_after, "fold_after": c.consumer.fold_after},
         "via_real_file": c.via_real_file,
     })
 }
@@ -562,6 +594,7 @@ fn case_from_json(v: &Value) -> Option<Case> {
             stop_at_first_err: v.pointer("/consumer/stop_at_first_err").and_then(|x| x.as_bool()).unwrap_or(false),
             nth_at: v.pointer("/consumer/nth_at").and_then(|x| x.as_array()).and_then(|a| Some((a.first()?.as_u64()? as usize, a.get(1)?.as_u64()? as usize))),
             count_after: v.pointer("/consumer/count_after").and_then(|x| x.as_u64()).map(|x| x as usize),
+            fold_after: v.pointer("/consumer/fold_after").and_then(|x| x.as_u64()).map(|x| x as usize),
         },
         via_real_file: v.get("via_real_file").and_then(|x| x.as_bool()).unwrap_or(false),
     })
@@ -662,6 +695,9 @@ fn worker(seed: u64, from: u64, to: u64, tier: &str, scratch: &Path) -> (Value, 
         if o.used_count {
             bump("probe_consumer_finished_with_count", 1);
         }
+        if o.used_fold {
+            bump("probe_consumer_drained_with_for_each", 1);
+        }
         distinct.insert(o.history_hash);
         if o.stats.split_inside_line > 0 || o.stats.eintr > 0 || o.stats.hard_errors > 0 || case.torn_at.is_some() || ncorrupt > 0 {
             distinct_nontrivial.insert(o.history_hash);
@@ -758,9 +794,9 @@ fn shrink_case(case: &Case) -> Vec<Case> {
         out.push(c);
     }
     // simpler consumer / no real file / no tearing
-    if case.consumer.extra_after_none > 0 || case.consumer.stop_at_first_err || case.consumer.nth_at.is_some() || case.consumer.count_after.is_some() {
+    if case.consumer.extra_after_none > 0 || case.consumer.stop_at_first_err || case.consumer.nth_at.is_some() || case.consumer.count_after.is_some() || case.consumer.fold_after.is_some() {
         let mut c = case.clone();
-        c.consumer = Consumer { extra_after_none: 0, stop_at_first_err: false, nth_at: None, count_after: None };
+        c.consumer = Consumer { extra_after_none: 0, stop_at_first_err: false, nth_at: None, count_after: None, fold_after: None };
         out.push(c);
     }
     // shorter descriptions, ASCII instead of multi-byte
